@@ -117,6 +117,14 @@ def spec_text(sp, sort="i64"):
     return "_"
 
 
+PATTERN_FIRST = [False]
+
+
+def json_key(at):
+    import json
+    return json.dumps([at["f"], at["a"]], sort_keys=True)
+
+
 def atom_text(p, at, wild):
     if at["k"] == "mk":
         return "(= %s %s)" % (spec_text(at["o"]), cont_text(p, at["c"], [spec_text(a) for a in at["a"]]))
@@ -134,6 +142,10 @@ def atom_text(p, at, wild):
     app = "(%s%s)" % (fn["name"], "".join(" " + a for a in args))
     if "w" in at["o"]:
         return app
+    if PATTERN_FIRST[0]:
+        # (= <pattern> v): the core-rule canonicalisation then keeps the user's variable name (the
+        # instrumented scheduler reads matches by variable name)
+        return "(= %s %s)" % (app, spec_text(at["o"], fn["out"]))
     return "(= %s %s)" % (spec_text(at["o"], fn["out"]), app)
 
 
@@ -252,6 +264,64 @@ def check_present(p, t):
     return dict(k="check", facts=atoms, text=gterm_text(p, t))
 
 
+
+# ------------------------------------------------------------------ custom-scheduler steps (C18)
+def head_free_vars(rule):
+    """variables the head uses that it does not bind itself (what the scheduler's matches carry)"""
+    bound, free = set(), []
+
+    def walk(t):
+        if isinstance(t, dict):
+            if "v" in t and set(t.keys()) <= {"v"}:
+                if t["v"] not in bound and t["v"] not in free:
+                    free.append(t["v"])
+            for k, x in t.items():
+                if k in ("a",):
+                    for y in x:
+                        walk(y)
+                elif k in ("t", "l", "r"):
+                    walk(x)
+    for h in rule["head"]:
+        if h["k"] == "let":
+            walk(h["t"])
+            bound.add(h["v"])
+        else:
+            walk({k: v for k, v in h.items() if k in ("t", "l", "r")})
+            for y in h.get("a", []):
+                walk(y)
+    return sorted(free)
+
+
+def var_sorts(p, rule):
+    out = {}
+    for at in rule["body"]:
+        if at.get("k") == "tab":
+            fn = p.funcs[at["f"] - 1]
+            for sp, srt in zip(at["a"] + [at["o"]], fn["ins"] + [fn["out"]]):
+                if "v" in sp:
+                    out.setdefault(sp["v"], srt)
+    return out
+
+
+def rules_of(p, rs, active):
+    rec = [q for q in p.rsets if q["name"] == rs][0]
+    if rec["kind"] == "comb":
+        return [x for sub in rec["subs"] for x in rules_of(p, sub, active)]
+    return [i + 1 for i, r in enumerate(p.rules) if r["rs"] == rs and (i + 1) in active]
+
+
+def sstep_cmd(p, rs, active, rng):
+    rules = []
+    for ri in rules_of(p, rs, active):
+        rule = p.rules[ri - 1]
+        hv = head_free_vars(rule)
+        vs = var_sorts(p, rule)
+        mode = rng.choice(["all", "all", "none", "mask", "mask", "mask"])
+        rules.append(dict(idx=ri, name=rule["name"], vars=hv, sorts=["E" if vs.get(v, "E") not in BASE else vs[v] for v in hv],
+                          mode=mode, mask=rng.randrange(1, 1 << 16), seek=0 if rng.random() < 0.25 else 1))
+    return dict(k="sstep", rs=rs, rules=rules)
+
+
 class Gen:
     def __init__(self, seed, profile=None):
         self.rng = random.Random(seed)
@@ -302,8 +372,33 @@ class Gen:
             p.rsets.append(dict(name="rs%d" % i, kind="rules", subs=[]))
         if nsets >= 2 and r.random() < 0.5:
             p.rsets.append(dict(name="comb", kind="comb", subs=["rs0", "rs1"]))
+        def dup_atoms(rule):
+            keys = [json_key(at) for at in rule["body"] if at.get("k") == "tab"]
+            return len(keys) != len(set(keys))
         for i in range(pf["nrules"]):
-            p.rules.append(self.rule(p, "rs%d" % r.randrange(nsets), "rule%d" % i))
+            rs = "rs%d" % r.randrange(nsets)
+            rule = self.rule(p, rs, "rule%d" % i)
+            # scheduler sessions read matches by variable name: two atoms with the same key make the engine
+            # merge their output variables (functional-dependency dedup), and one of the names disappears
+            for _ in range(20):
+                if not (pf.get("sched", 0) > 0 and dup_atoms(rule)):
+                    break
+                rule = self.rule(p, rs, "rule%d" % i)
+            p.rules.append(rule)
+        for i in range(pf.get("novar_rules", 0)):
+            # a rule whose head uses no variable (the scheduler then collects one unit marker per match)
+            un = self.tables(p, lambda fn: fn["kind"] == "con" and fn["out"] == "E" and len(fn["ins"]) in (1, 2) and all(x == "E" for x in fn["ins"]))
+            cs = self.tables(p, lambda fn: fn["kind"] == "con" and fn["out"] == "E" and not fn["ins"])
+            if not un or len(cs) < 2:
+                break
+            f = r.choice(un)
+            body = [dict(k="tab", f=f, a=[{"v": k + 1} for k in range(len(p.funcs[f - 1]["ins"]))], o={"w": 1})]
+            a, b = r.sample(cs, 2)
+            nested = [x for x in un if p.funcs[x - 1]["ins"] == ["E"]]
+            head = r.choice([[dict(k="union", l={"f": a, "a": []}, r={"f": b, "a": []})],
+                             [dict(k="ins", t={"f": nested[0], "a": [{"f": nested[0], "a": [{"f": a, "a": []}]}]})] if nested else
+                             [dict(k="union", l={"f": a, "a": []}, r={"f": b, "a": []})]])
+            p.rules.append(dict(rs="rs%d" % r.randrange(nsets), name="novar%d" % i, body=body, head=head))
         return p
 
     def tables(self, p, pred):
@@ -642,6 +737,7 @@ class Gen:
         rules are declared in which e-graph, push depth) only serves to emit well-formed commands;
         the expected outcome of every command is decided by the specification."""
         r, pf = self.rng, self.pf
+        PATTERN_FIRST[0] = pf.get("sched", 0) > 0
         p = self.prog()
         nlate = pf.get("late_funcs", 0)
         latef = []
@@ -714,6 +810,10 @@ class Gen:
                 emit(dict(k="bad"), text)
                 for ptext, ok in probes:
                     emit(dict(k="probe", ok=ok), ptext)
+                continue
+            if pf.get("sched", 0) > 0 and r.random() < pf["sched"]:
+                c = sstep_cmd(p, r.choice([q["name"] for q in p.rsets]), st["active"], r)
+                emit(c, "(sstep %s %s)" % (c["rs"], " ".join("%s:%s" % (q["name"], q["mode"]) for q in c["rules"])))
                 continue
             if st["late"] and r.random() < 0.2:
                 emit(dict(k="rule", r=st["late"][0]))
